@@ -417,7 +417,7 @@ func nodeGen(r *rand.Rand, tier string, prop string) []Case {
 	for i := 0; i < n; i++ {
 		c := Case{fmt.Sprintf("world # seed=%d", r.Intn(1_000_000))}
 		c = append(c, "blk # dt=6 txs=deploy.0|eth.1.5")
-		c = append(c, "blk # dt=6 txs=fundpup.0.1000000000000000|approve.1|approve.2|mdeleg.3.1000000000000000000")
+		c = append(c, "blk # dt=6 txs=fundpup.0.1000000000000000|approve.1|approve.2|mdeleg.3.1000000000000000000|mdeleg.1.1000000000000000000|mdeleg.2.1000000000000000000")
 		swapAt := 2 + r.Intn(blocks-4)
 		swapped := "bech32" // the extension that is inactive
 		for b := 2; b < blocks; b++ {
@@ -441,6 +441,17 @@ func nodeGen(r *rand.Rand, tier string, prop string) []Case {
 					}
 					if r.Intn(3) == 0 {
 						s = append(s, "[", fmt.Sprintf("P:%d", 1+r.Intn(1000)), "S:1:3", "]R")
+					}
+					if r.Intn(6) == 0 {
+						// touch a module account, then have a precompile move coins into or out of it in the same transaction
+						m := pick(r, []string{"not_bonded_tokens_pool", "bonded_tokens_pool", "distribution"})
+						s = append(s, "Z:"+m, fmt.Sprintf("U:%d", 1000+r.Intn(50000)), fmt.Sprintf("G:%d", 1000+r.Intn(50000)))
+					}
+					if r.Intn(3) == 0 {
+						s = append(s, "Z:"+pick(r, []string{"not_bonded_tokens_pool", "bonded_tokens_pool", "distribution", "fee_collector", "gov", "erc20", "coinomics"}))
+					}
+					if r.Intn(3) == 0 {
+						s = append(s, fmt.Sprintf("D:%d", 100000+r.Intn(100000)), fmt.Sprintf("U:%d", 1000+r.Intn(50000)))
 					}
 					txs = append(txs, fmt.Sprintf("pup.%d.%d.%s", 1+r.Intn(2), r.Intn(5000), strings.Join(s, ",")))
 				case x < 8:
@@ -648,7 +659,38 @@ func c20Exec(c Case) (outs []string, fails []Failure, tags []string) {
 	return
 }
 
+// c15Exec: after every block of the history every registered crisis invariant is evaluated on the committed state.
+func c15Exec(c Case) (outs []string, fails []Failure, tags []string) {
+	var broken []string
+	after := func(run *nodeRun, i int) {
+		if len(broken) > 0 {
+			return
+		}
+		b := run.blocks[len(run.blocks)-1]
+		header := testutil.NewHeader(b.height, b.time, nodeChainID, run.w.proposer, run.a.LastCommitID().Hash, run.w.valSet.Hash())
+		ctx := run.a.BaseApp.NewContext(true, header)
+		for _, r := range run.a.CrisisKeeper.Routes() {
+			if msg, bad := r.Invar(ctx); bad {
+				broken = append(broken, fmt.Sprintf("after block %d (op line %d) invariant %s is broken: %s", b.height, i, r.FullRoute(), strings.TrimSpace(msg)))
+			}
+		}
+	}
+	_, outs, tags = nodeExecHistory(c, after, nil)
+	tags = append(tags, "invariants-evaluated")
+	if len(broken) > 0 {
+		fails = append(fails, Failure{Signature: "C15:invariant-broken", What: strings.Join(broken, "\n"), Case: c})
+	}
+	return
+}
+
 func init() {
+	Register(&Property{
+		ID: "C15", NoModel: true,
+		Gen:        func(r *rand.Rand, tier string) []Case { return nodeGen(r, tier, "C15") },
+		Exec:       c15Exec,
+		NonTrivial: func(tags []string) bool { return hasTag(tags, "invariants-evaluated") && hasTag(tags, "tx:pup") },
+		Rule:       "the block histories of C01 plus vesting-account conversion, liquidation and redemption of locked coins, DAO funding and share transfers, ERC20 conversion of a registered coin, governance deposits that are burned, puppet transactions that touch module accounts and undelegate by grant; with the coinomics mint running every block; after every block every invariant registered with the crisis keeper (bank supply, staking pools and shares, distribution can-withdraw / module account, governance deposits) is evaluated on the committed state; non-trivial = history with puppet transactions; distinct = distinct histories",
+	})
 	Register(&Property{
 		ID: "C01", NoModel: true,
 		Gen:        func(r *rand.Rand, tier string) []Case { return nodeGen(r, tier, "C01") },
